@@ -1807,46 +1807,38 @@ def rule_r8(chk, prog):
              'abstraction assumes: is_piped_symbol / is_string_const hold '
              'for every leaf that starts and ends with the delimiter '
              '(multi-line quoted symbols, strings with "" included)')
+    from ..boolfn import BoolFn
     m = prog.mod('smtlib')
     for pname, q in LEXEME_PREDICATES.items():
         f = m.func(pname)
         where = f'smtlib.{pname}'
         np_ = params_of(f)[0]
-        rets = [r for r in walk_no_nested(f) if isinstance(r, ast.Return)]
-        if len(rets) != 1 or rets[0].value is None:
-            raise AnalysisError(f'C15.R8: {where} is not a single return')
-        v = expand_locals(f, rets[0].value)
-        conj = v.values if isinstance(v, ast.BoolOp) and isinstance(
-            v.op, ast.And) else [v]
         texts = (np_, f'{np_}.data', f'str({np_})')
-        first = last = leaf = False
-        verdict = None
-        for c in conj:
+        regexes = []
+
+        def atomizer(c, q=q, np_=np_, texts=texts, regexes=regexes):
             t = unparse(c)
-            if t == f'{np_}.is_leaf()' or t == \
-                    f'isinstance({np_}.data, str)':
-                leaf = True
-                continue
-            # first / last character tests
+            if t in (f'{np_}.is_leaf()', f'isinstance({np_}.data, str)'):
+                return ('leaf', True)
             for base in texts:
                 if t in (f"{base}[0] == {q!r}", f"{base}.startswith({q!r})",
                          f"{q!r} == {base}[0]", f"{base}[:1] == {q!r}",
                          f"{base}[0:1] == {q!r}"):
-                    first = True
+                    return ('first', True)
+                if t in (f"{base}[0] != {q!r}", ):
+                    return ('first', False)
                 if t in (f"{base}[-1] == {q!r}", f"{base}.endswith({q!r})",
                          f"{q!r} == {base}[-1]", f"{base}[-1:] == {q!r}"):
-                    last = True
-                if t in (f"{base}[0] == {base}[-1] == {q!r}",
-                         f"{base}[0] == {q!r} == {base}[-1]",
-                         f"{q!r} == {base}[0] == {base}[-1]"):
-                    first = last = True
-            # regular expression
-            call = None
+                    return ('last', True)
+                if t in (f"{base}[-1] != {q!r}", ):
+                    return ('last', False)
+            call, pol = None, True
             if isinstance(c, ast.Compare) and len(c.ops) == 1 and isinstance(
-                    c.ops[0], (ast.IsNot, ast.NotEq)) and isinstance(
-                        c.comparators[0], ast.Constant) and \
+                    c.ops[0], (ast.IsNot, ast.NotEq, ast.Is, ast.Eq)) and \
+                    isinstance(c.comparators[0], ast.Constant) and \
                     c.comparators[0].value is None:
                 call = c.left
+                pol = isinstance(c.ops[0], (ast.IsNot, ast.NotEq))
             elif isinstance(c, ast.Call) and call_name(c) == 'bool' and \
                     c.args:
                 call = c.args[0]
@@ -1854,44 +1846,78 @@ def rule_r8(chk, prog):
                 call = c
             if isinstance(call, ast.Call) and (call_name(call) or '') in (
                     're.match', 're.fullmatch', 're.search'):
-                if len(call.args) < 2 or not (isinstance(
-                        call.args[0], ast.Constant) and isinstance(
-                            call.args[0].value, str)):
-                    raise AnalysisError(
-                        f'C15.R8: {m.loc(call)}: pattern is not a literal')
-                if unparse(call.args[1]) not in texts:
-                    raise AnalysisError(
-                        f'C15.R8: {m.loc(call)}: matched text is '
-                        f'{unparse(call.args[1])}')
-                fl = call.args[2] if len(call.args) > 2 else kw(call,
-                                                                'flags')
-                dotall = fl is not None and ('DOTALL' in unparse(fl)
-                                             or unparse(fl).endswith('.S'))
-                pat = call.args[0].value
-                if call_name(call) == 're.search' and not pat.startswith(
-                        ('^', '\\A')):
-                    verdict = (False, 'the pattern is searched, not '
-                               'matched at the start', call)
-                else:
-                    ok, why = _regex_delimited(
-                        pat, dotall, q, call_name(call) == 're.fullmatch',
-                        q == '"')
-                    verdict = (ok, why, call)
+                regexes.append(call)
+                return ('regex', pol)
+            raise AnalysisError(
+                f'C15.R8: {where}: test "{t[:70]}" is neither a leaf test, '
+                'a first/last-character test nor a regular expression')
+
+        # "a == b == q" chains: split before extraction
+        class Chain(ast.NodeTransformer):
+
+            def visit_Compare(self_, n):
+                if len(n.ops) == 2 and all(
+                        isinstance(o, ast.Eq) for o in n.ops):
+                    a, b, c = n.left, n.comparators[0], n.comparators[1]
+                    qs = [x for x in (a, b, c) if isinstance(
+                        x, ast.Constant) and x.value == q]
+                    others = [x for x in (a, b, c) if x not in qs]
+                    if len(qs) == 1 and len(others) == 2:
+                        return ast.BoolOp(op=ast.And(), values=[
+                            ast.Compare(left=o, ops=[ast.Eq()],
+                                        comparators=[qs[0]])
+                            for o in others])
+                return n
+
+        from ..astutil import clone as _clone
+        fn = Chain().visit(_clone(f))
+        bf = BoolFn(fn, atomizer)
+        keys = set(bf.atom_keys)
+        verdict = None
+        if regexes:
+            call = regexes[0]
+            if len(call.args) < 2 or not (isinstance(
+                    call.args[0], ast.Constant) and isinstance(
+                        call.args[0].value, str)):
+                raise AnalysisError(
+                    f'C15.R8: {m.loc(call)}: pattern is not a literal')
+            if unparse(call.args[1]) not in texts:
+                raise AnalysisError(
+                    f'C15.R8: {m.loc(call)}: matched text is '
+                    f'{unparse(call.args[1])}')
+            fl = call.args[2] if len(call.args) > 2 else kw(call, 'flags')
+            dotall = fl is not None and ('DOTALL' in unparse(fl)
+                                         or unparse(fl).endswith('.S'))
+            pat = call.args[0].value
+            if call_name(call) == 're.search' and not pat.startswith(
+                    ('^', '\\A')):
+                verdict = (False, 'the pattern is searched, not matched at '
+                           'the start', call)
+            else:
+                ok, why = _regex_delimited(
+                    pat, dotall, q, call_name(call) == 're.fullmatch',
+                    q == '"')
+                verdict = (ok, why, call)
+        need = {'leaf'} | ({'regex'} if regexes else {'first', 'last'})
+        if not need <= keys:
+            raise AnalysisError(
+                f'C15.R8: {where} does not test {sorted(need - keys)}')
+        wrong = [val for val, res in bf.table()
+                 if bool(res) != all(val[k] for k in keys)]
+        shape_ok = not wrong
         if verdict is not None:
-            chk.check('C15.R8', where, verdict[2], verdict[0] and leaf,
+            chk.check('C15.R8', where, verdict[2], verdict[0] and shape_ok,
                       f'{pname} decides with the pattern '
                       f'{verdict[2].args[0].value!r}: {verdict[1]}; callers '
                       'then treat such a leaf as a simple symbol (cut it, '
                       'prefix it) and propose leaves that are not single '
                       'tokens', loc=m.loc(verdict[2]), nontrivial=True)
-        elif first and last and leaf:
-            chk.instance('C15.R8', where, f'leaf, first and last character '
-                         f'are {q!r}', True, 'first/last-character test',
-                         nontrivial=True, loc=m.loc(f))
         else:
-            raise AnalysisError(
-                f'C15.R8: {where}: body "{unparse(v)[:80]}" is neither the '
-                'first/last-character test nor a regular expression')
+            chk.check('C15.R8', where, f'leaf, first and last character '
+                      f'are {q!r}', shape_ok,
+                      f'{pname} is not the conjunction of "is a leaf", '
+                      f'"starts with {q}" and "ends with {q}" (differs for '
+                      f'{wrong[:1]})', loc=m.loc(f), nontrivial=True)
 
 
 def run(tier):
